@@ -7,12 +7,13 @@ for k, (prop, change, needs, hist) in M.items():
     d = f'/verif/seeded/{k}'
     caught = open(f'{d}/caught.txt', errors='replace').read().strip().splitlines()
     own = [l for l in caught if l.startswith(prop + ' ')]
-    assert own and 'exit=1' in own[0], (k, caught)
+    if not (own and 'exit=1' in own[0]):
+        print('NOT caught by own check:', k)
     others = sorted({l.split()[0] for l in caught if 'exit=1' in l and not l.startswith(prop + ' ')})
     meta = {"id": k, "property": prop, "change": change, "needs_to_manifest": needs,
             "produced_by": f"fresh sub-agent ({rnd}) given only the property text, one-line descriptions of the changes seeded earlier for that property, and a scratch worktree under /tmp/wt",
             "confirmed": "tools/confirm_seed2.sh: demo passes on the clean source; with the patch the crate builds under default / no-alloc / no-unicode / hook configurations, the 70 baseline tests + doc-test pass, the demo fails",
-            "caught_by": [prop] + others,
+            "caught_by": ([prop] if (own and "exit=1" in own[0]) else []) + others,
             "how_run": f"tools/run_mutant.sh seeded/{k}/patch.diff {prop}  (git -C /repo apply; ./check.sh {prop} quick with VERIF_OUT redirected; git -C /repo checkout -- .)",
             "result": own[0][:300], "history": hist}
     json.dump(meta, open(f'{d}/meta.json', 'w'), indent=1, ensure_ascii=False)
